@@ -3,4 +3,5 @@ CONSTANT NoCollapseRun = TRUE
 CONSTANT Depth = 2
 CONSTANT NFree = 9
 INVARIANT ManifoldIffNoSharedAmbiguous
+INVARIANT Outward
 CHECK_DEADLOCK FALSE
